@@ -120,6 +120,44 @@ def regenerate():
     return st
 
 
+PINS = os.path.join(VERIF, 'translator', 'source_pins.json')
+
+
+def source_digests(pid=None):
+    """sha256 of the parsed source (comments and layout do not count) of every python file the property is anchored in
+    (`anchors.files` of properties.jsonl; a directory stands for the python files under it); all properties if pid is None"""
+    import ast
+    files = set()
+    for line in open(os.path.join(VERIF, 'properties.jsonl')):
+        d = json.loads(line)
+        if pid is not None and d['id'] != pid:
+            continue
+        for f in d['anchors']['files']:
+            full = os.path.join(REPO, f)
+            if os.path.isdir(full):
+                for root, _, names in os.walk(full):
+                    files.update(os.path.relpath(os.path.join(root, n_), REPO) for n_ in names if n_.endswith('.py'))
+            elif f.endswith('.py'):
+                files.add(f)
+    out = {}
+    for f in sorted(files):
+        try:
+            out[f] = hashlib.sha256(ast.dump(ast.parse(open(os.path.join(REPO, f)).read())).encode()).hexdigest()[:20]
+        except Exception as e:      # missing or unparsable: counts as drift
+            out[f] = 'unreadable: %s' % type(e).__name__
+    return out
+
+
+def source_drift(pid):
+    """anchored files whose parsed source differs from the committed pins (the tree on which the correspondence and the oracles were last
+    calibrated): not a finding by itself — it directs a deeper search (Check.finish)"""
+    try:
+        pins = json.load(open(PINS))
+    except Exception:
+        return []
+    return [f for f, h in source_digests(pid).items() if pins.get(f) != h]
+
+
 def lake_build(target):
     rc, out = run(['lake', 'build', target], cwd=LEAN, timeout=3000)
     return rc == 0, out
@@ -387,9 +425,17 @@ class Check:
                 # current code, and only the sampled correspondence binds the two — the T-tie no longer checks
                 broken.append(dict(kind='correspondence', what='T-tie lost for %s (%s): theorems about Gen.%s are about the golden definition, not the current source' % (
                     name, st.get('reason'), st.get('lean', name)), replay=dict(function=name, reason=st.get('reason'), tie=st.get('tie'))))
+        drift = source_drift(self.pid)
+        self.extra = dict(getattr(self, 'extra', {}) or {}, source_drift=drift)
         if broken and not impl and search is not None:
             search(10)
             impl = [v for v in self.violations if v['kind'] == 'impl']
+        elif drift and not impl and search is not None and self.tier == 'quick':
+            # the anchored source differs from the tree the checks were calibrated on and nothing has failed: look deeper before passing
+            out('  source drift in %s: search budget raised' % ', '.join(drift[:6]))
+            search(4)
+            impl = [v for v in self.violations if v['kind'] == 'impl']
+            broken = [v for v in self.violations if v['kind'] != 'impl']
         rc = 0
         os.makedirs(os.path.join(VERIF, 'replays'), exist_ok=True)
         if impl:
